@@ -44,7 +44,7 @@ def _membership(ctx: Ctx, fi: FunctionInfo, atom: ast.expr, subject: str) -> Opt
 # C11.1 tag order
 
 
-def tag_order(ctx: Ctx) -> None:
+def tag_order(ctx: Ctx, methods: Sequence[str] = ("time_at", "beat_at")) -> None:
     p = ctx.p
     ci = p.cls(f"{ENG}.EventTag")
     mem = p.enum_members(ci)
@@ -53,7 +53,7 @@ def tag_order(ctx: Ctx) -> None:
     ctx.expect("R-TABLE", ci, "EventTag order: WARP < WARP_END < BPM < DELAY < DELAY_END < STOP < STOP_END", order == SPEC_TAGS and len(set(vals)) == len(vals),
                str(order), f"tags sorted by value are {order}; the timeline needs {SPEC_TAGS}", node=ci.node)
     ctx.expect("R-TABLE", ci, "EventTag is an IntEnum (tags compare by value)", any(isinstance(b, External) and b.name == "enum.IntEnum" for b in ci.bases), "", "", node=ci.node)
-    for name in ("time_at", "beat_at"):
+    for name in methods:
         f = p.func(f"{TE}.{name}")
         d = f.defaults().get("event_tag")
         v = try_ev(ctx, f, d) if d is not None else None
@@ -651,7 +651,11 @@ def beatvalues_codec(ctx: Ctx, judge_source: bool = True) -> None:
     fsx = facts(ctx, fs_, lp)
     okg = sorted((ast.unparse(a), pol) for a, pol in fsx) == sorted([(sp, True), (f"{sp}.strip()", True)])
     ctx.expect("R-TABLE", fs_, "an absent or blank string is the empty list", okg, unparse_facts(fsx), "", node=lp)
-    # TimingData.__init__
+    timingdata_fields(ctx, judge_source)
+
+
+def timingdata_fields(ctx: Ctx, judge_source: bool = True) -> None:
+    p = ctx.p
     td = p.func("simfile.timing:TimingData.__init__")
     sn = td.param_names()[0]
     srcs = [b for bs in locals_of(td).b.values() for b in bs if b.kind == "assign" and isinstance(b.value, ast.Call) and callee_name(ctx, td, b.value).endswith("timing_source")]
@@ -805,7 +809,7 @@ def coalesce_coherence(ctx: Ctx) -> None:
     ends = r.value.elts[1].elts[0].id
     loops = [l for l in for_loops(f) if ast.unparse(l.iter) == f"{f.param_names()[0]}.timing_data.warps"]
     lp = one(loops, f"loop over the warps in {f.fq}")
-    cmps = [n for st in lp.body for n in walk_no_nested(st) if isinstance(n, ast.Compare) and len(n.ops) == 1 and isinstance(n.ops[0], ast.LtE) and ast.unparse(n.left).endswith(".beat")]
+    cmps = [n for st in lp.body for n in walk_no_nested(st) if isinstance(n, ast.Compare) and len(n.ops) == 1 and isinstance(n.ops[0], (ast.LtE, ast.Lt)) and ast.unparse(n.left).endswith(".beat")]
     cmp_ = one(cmps, f"comparison 'warp.beat <= <last end>' in {f.fq}")
     X = cmp_.comparators[0]
     live = f"{ends}[-1].beat"
